@@ -166,7 +166,7 @@ Fixpoint lfold {A B} (f : A -> B -> lres A) (l : list B) (a : A) : lres A :=
   match l with [] => LOk a | x :: l' => a' <- f a x ;; lfold f l' a' end.
 
 Definition insert_origin_tx (class_key : N) (otx : origin_tx) (s : state) : lres state :=
-  let k := (class_key, ot_id otx, ot_source otx) in
+  let k := (class_key, ot_id otx, to_lower (ot_source otx)) in   (* chain names are case-insensitive *)
   if bool_decide (k ∈ origin_txs s) then LErr LInvalid
   else LOk (s <| origin_txs := {[ k ]} ∪ origin_txs s |>).
 
